@@ -29,6 +29,7 @@ func (fn *Function) instance(rtargs, targs []types.Type, b *builder) *Function {
 
 	gen := fn.generic
 
+	verifEvent("ref?", b, nil)
 	gen.instancesMu.Lock()
 	defer gen.instancesMu.Unlock()
 	inst, ok := gen.instances[key]
@@ -41,8 +42,10 @@ func (fn *Function) instance(rtargs, targs []types.Type, b *builder) *Function {
 			gen.instances = make(map[*typeList]*Function)
 		}
 		gen.instances[key] = inst
+		verifEvent("create", b, inst)
 	} else {
 		b.waitForSharedFunction(inst)
+		verifEvent("hit", b, inst)
 	}
 	return inst
 }
